@@ -144,7 +144,7 @@ def main(tier, seed, budget):
             got = {}
             for job, out in pool.imap(st, timeout=600):
                 if out[0] == 'ok':
-                    got.setdefault(job['tag'][0], []).append((out[1]['digest'], out[1].get('result_digest'), repr(out[1]['violation'])))
+                    got.setdefault(job['tag'][0], []).append((out[1]['digest'], out[1].get('result_digest'), repr((out[1]['violation'] or {}).get('sig'))))
             bad = [k for k, v in got.items() if len(v) == 2 and v[0] != v[1]]
             selftest['same_seed_twice'] = dict(pairs=len(got), mismatches=len(bad))
             if bad:
